@@ -261,9 +261,9 @@ def concretize(tpl, info, m):
     return out, stages
 
 
-def real_visibility(ctx, wgsl):
+def real_visibility(ctx, wgsl, validate=False):
     """visibility per variable name as emitted by the REAL generator (+ push constant stages)"""
-    kind, toks, _ = ctx.gen_tokens(wgsl, OPTS)
+    kind, toks, _ = ctx.gen_tokens(wgsl, dict(OPTS, validate=True) if validate else OPTS)
     if kind != 'ok':
         raise Inconclusive(f'real build did not accept a rendered template: {kind} {toks}')
     return decode_visibility(toks)
@@ -419,15 +419,23 @@ def run(ctx):
     # ---------------------------------------------------------------- (C) lookup by name with NONE fallback; push constant fallback
     check_lookup(ctx, seen)
 
-    # ---------------------------------------------------------------- (D) end to end through create_shader_module_inner
+    end_to_end(ctx, seen)
+    ctx.extra['violations_by_rule'] = seen
+
+
+def end_to_end(ctx, seen):
+    """(D) through create_shader_module_inner, with validation symbolic (off / on): the visibility must not depend on it"""
     tpl = Template(1, [1, 2], ['plain', 'continuing', 'switch_default'])
     hv = [f for f in tpl.funcs if f['kind'] == 'v'][0]
     sym = [tpl.entries[0]['ctx']['continuing'], hv['slots']['use']]
     module, info = build(ctx, tpl, sym, [])
     src = info['src']
     env = env_passthrough(module, src)
+    validate_on = z3.Bool('validate_is_some')
+    vo = Agg('Option', {'Some': [Agg('ValidationOptions', [Agg('Capabilities', [Agg('InternalBitFlags', [z3.BitVec('capabilities', 32)])])])], 'None': []},
+             disc=z3.If(validate_on, z3.BitVecVal(1, 64), z3.BitVecVal(0, 64)))
     res = ctx.explore('create_shader_module_inner/end-to-end',
-                      lambda it: it.call('create_shader_module_inner', [src, none(), write_options(ctx.S.conv, **OPTS)]),
+                      lambda it: it.call('create_shader_module_inner', [src, none(), write_options(ctx.S.conv, validate=vo, **OPTS)]),
                       assume=info['assume'], env=env, anchors=['global_shader_stages', 'bind_group_layout_entry', 'push_constant_range_stages'])
     want = reference(tpl, info)
     for pc, kind, out, _ in res:
@@ -443,21 +451,26 @@ def run(ctx):
         m = ctx.check(pc, z3.Or(bad))
         if m is not None:
             srcs, stages = concretize(tpl, info, m)
-            rv = real_visibility(ctx, srcs[0])
+            von = model_value(m, validate_on)
+            rv = real_visibility(ctx, srcs[0], validate=von)
             exp = {}
             for g in GLOBALS:
                 e_ = model_value(m, want[g[0]])
                 exp[g[0]] = (6 if (g[0] == 'pc' and e_ == 0) else e_)
-            ctx.report('C03/end-to-end', f'emitted visibility {rv} != static use {exp}', {'wgsl': srcs[0]}, rv != exp, {'real': rv, 'expected': exp})
+            exp2 = dict(exp)
+            key = 'C03/end-to-end'
+            seen[key] = seen.get(key, 0) + 1
+            if seen[key] == 1:
+                ctx.report(key, f'emitted visibility {rv} != static use {exp} (validate={von})', {'wgsl': srcs[0], 'options': dict(OPTS, validate=von)},
+                           {k: v for k, v in rv.items() if k in exp2} != exp2, {'real': rv, 'expected': exp})
     # translator validation: the default rendering and one witness rendering, token-exact against the real build
     ctx.differential(src, OPTS)
     m = ctx.witness(res[-1][0])
     srcs, _ = concretize(tpl, info, m)
     ctx.differential(srcs[0], OPTS)
-    ctx.extra['violations_by_rule'] = seen
 
 
-def sequences(ctx, nh, ne, seen):
+def sequences(ctx, nh, ne, seen, low_use='u0'):
     """several calls in ONE block (repeated callee, then a new one), with a later entry point of another stage reaching the low helper
     only THROUGH the top helper: neither an early stop of the walk nor a summary cached across entry points may lose a stage"""
     seqs = [('plain', 'plain2', 'plain3'), ('loop_body', 'loop_body2', None)]
@@ -465,7 +478,7 @@ def sequences(ctx, nh, ne, seen):
         tpl = Template(nh, [1, 2, 0][:ne], CONTEXTS)
         e0 = tpl.entries[0]
         hvs = [f for f in tpl.funcs if f['kind'] == 'v']
-        hvs[0]['slots']['use'].value = 'u0'
+        hvs[0]['slots']['use'].value = low_use
         hvs[-1]['slots']['callv'].value = hvs[0]['name']          # top helper calls the low helper
         tpl.entries[1]['slots']['use'].value = 'tex'
         tpl.entries[1]['ctx']['plain'].value = hvs[-1]['name']     # the other entry point reaches the low helper only through the top one
@@ -602,14 +615,21 @@ def native(ctx):
             for st in set(stages):
                 want['pc'] |= STAGE_BIT[st]
         src = tpl.render(None, k % 4)
-        vis = real_visibility(ctx, src)
-        got = {g[0]: vis.get(g[0]) for g in GLOBALS}
-        if got != want:
-            if not reported:
-                reported = True
-                ctx.report('C03/native', f'real generator emits visibility {got}, static use says {want}', {'wgsl': src}, True, {'real': got, 'expected': want})
-        else:
-            ctx.replayed_ok += 1
+        for von in (False, True):
+            try:
+                vis = real_visibility(ctx, src, validate=von)
+            except Inconclusive:
+                if von:
+                    continue          # the validator may reject a random filling (e.g. writable storage in a vertex stage): not an accepted shader
+                raise
+            got = {g[0]: vis.get(g[0]) for g in GLOBALS}
+            if got != want:
+                if not reported:
+                    reported = True
+                    ctx.report('C03/native', f'real generator emits visibility {got}, static use says {want} (validate={von})',
+                               {'wgsl': src, 'options': dict(OPTS, validate=von)}, True, {'real': got, 'expected': want})
+            else:
+                ctx.replayed_ok += 1
     ctx.sample({'random template fillings compared natively': n})
 
 
